@@ -27,6 +27,10 @@ BOUNDS = {
 }
 
 
+# request shapes: the small graphs get every nesting and the empty request; the largest quick graphs only scalar/flat and list-first
+REQ = {False: dict(), True: dict(allow_empty=False, shapes=(0, 2))}
+
+
 def functions():
     return SC.sched_functions()
 
@@ -40,7 +44,7 @@ def mc_counts(res):
     return dict(states=len(states), transitions=trans)
 
 
-def oracle(e, spec, want, log, cache, gid):
+def oracle(e, spec, want, log, cache, gid, supplied=()):
     needed = SC.needed_set(spec, want)
     N = len(spec)
     keyidx = {SC.key_of(j): j for j in range(N)}
@@ -78,13 +82,15 @@ def oracle(e, spec, want, log, cache, gid):
         for k in snap["running"]:
             e.check(k not in fin, f"{k!r} both running and finished")
     e.notes["transitions"] = e.notes.get("transitions", 0) + ntrans
-    e.check(set(cache) == requested, f"at return the cache holds {sorted(map(str, cache))}, requested {sorted(map(str, requested))}")
+    left = set(cache) - set(supplied)
+    e.check(requested <= set(cache), f"a requested result is missing from the cache at return: {sorted(map(str, cache))}")
+    e.check(left <= requested, f"at return the cache still holds {sorted(map(str, left - requested))} (neither requested nor supplied by the caller)")
 
 
-def mk(N, kinds, chunks=SC.CHUNKSIZES):
+def mk(N, kinds, chunks=SC.CHUNKSIZES, small=False):
     def setup(e):
         spec = SC.gen_graph(e, N, kinds, sym_leaf=False)
-        want, shape = SC.gen_request(e, N)
+        want, shape = SC.gen_request(e, N, **REQ[small])
         nw = e.int("num_workers", 1)
         cs = e.pick("chunksize", chunks)
         return spec, want, shape, nw, cs
@@ -100,11 +106,38 @@ def mk(N, kinds, chunks=SC.CHUNKSIZES):
         oracle(e, spec, want, log, cache, gid)
         return [(ev[0], str(ev[2])) for ev in log if ev[0] in ("cb_pretask", "cb_posttask")]
 
-    return Obligation(f"release[N={N},kinds={'+'.join(kinds)}]", setup, run)
+    return Obligation(f"release[N={N},kinds={'+'.join(kinds)}{',fewshapes' if small else ''}]", setup, run)
+
+
+def mk_supplied(N, kinds):
+    """caller-supplied cache with an unrelated entry and stale values under literal keys"""
+    def setup(e):
+        spec = SC.gen_graph(e, N, kinds, sym_leaf=False)
+        want, shape = SC.gen_request(e, N, shapes=(1,))
+        pre = [j for j, s in enumerate(spec) if s["kind"] == "data" and e.flag(f"pre{j}")]
+        nw = e.int("num_workers", 1)
+        cs = e.pick("chunksize", (-1, 1, 2))
+        return spec, want, shape, pre, nw, cs
+
+    def run(e, spec, want, shape, pre, nw, cs):
+        log = []
+        dsk = SC.build(spec, log, {})
+        keys, pack = SC.request_keys(want, shape)
+        mon = SC.Monitors(log, e, snapshot=True)
+        cache = {SC.key_of(j): -99 for j in pre}
+        cache["unrelated"] = None
+        supplied = set(cache)
+        SC.run_scheduler(e, dsk, keys, nw, cs, log, callbacks=[mon.tuple("m", "SpPf")], cache=cache, use_loads=False)
+        gid = (tuple((s["kind"], tuple(s["deps"])) for s in spec), tuple(want), tuple(pre))
+        oracle(e, spec, want, log, cache, gid, supplied)
+        e.check("unrelated" in cache, "the scheduler dropped a cache entry it does not own")
+        return sorted(map(str, cache))
+
+    return Obligation(f"supplied_cache[N={N},kinds={'+'.join(kinds)}]", setup, run)
 
 
 def obligations(tier):
     A, B = ("task", "data", "alias"), ("legacy", "listarg", "legacylist")
     if tier == "quick":
-        return [mk(1, SC.ALL_KINDS), mk(2, SC.ALL_KINDS), mk(3, A), mk(3, B)]
-    return [mk(1, SC.ALL_KINDS), mk(2, SC.ALL_KINDS), mk(3, SC.ALL_KINDS), mk(4, A)]
+        return [mk(1, SC.ALL_KINDS), mk(2, SC.ALL_KINDS), mk(3, A, small=True), mk(3, B, small=True), mk(3, SC.NONE_KINDS, small=True), mk_supplied(3, ("task", "data", "none"))]
+    return [mk(1, SC.ALL_KINDS), mk(2, SC.ALL_KINDS), mk(3, SC.ALL_KINDS), mk(3, SC.NONE_KINDS), mk(4, A), mk_supplied(3, SC.ALL_KINDS + ("none",)), mk_supplied(4, ("task", "data", "none"))]
